@@ -175,6 +175,10 @@ def panic_entry(shape, api, mode, blocking, style, kind, keystyle="owned"):
     L = ["w().reset(false);"]
     L += shape.setup
     L += pre_stmts(shape)
+    if kind == "fault" and shape.kind in ("owned", "retry") and shape.build[-1].startswith("let coll = ") and "::new(" in shape.build[-1] \
+            and not shape.name.startswith(("n_", "rte", "owe")):
+        shape = Shape(shape.name, shape.kind, shape.setup, shape.build[:-1] + [shape.build[-1].replace("let coll", "let mut coll", 1)],
+                      shape.ctype, shape.leaves, shape.sharable, guard=shape.guard, rguard=shape.rguard, nested_owned_mask=shape.nested_owned_mask)
     L += shape.build
     L.append("let orc = %s;" % oracle_try(shape, mode))
     L.append("let all_free = %s;" % oracle_try(shape, "w"))
@@ -291,6 +295,13 @@ def panic_entry(shape, api, mode, blocking, style, kind, keystyle="owned"):
             L.append("\t\t\tcore::mem::forget(r2);")
             L.append("\t\t}")
             L.append("\t}")
+        if shape.kind in ("owned", "retry") and shape.build[-1].startswith("let mut coll = ") and "::new(" in shape.build[-1]:
+            # exclusive access to the collection must not bring a killed lock back to life
+            L.append("\tif (w().held_x.get() | w().held_s.get()) == 0 {")
+            L.append("\t\t{ let _gm = coll.get_mut(); }")
+            L.append("\t\tvcheck!(coll.try_lock(key()).is_err(), M_FAULTED_USABLE);")
+            L.append("\t\tvcheck!(!w().held_any(), M_LEAK);")
+            L.append("\t}")
         L.append("} else {")
         L.append("\tvcheck!(!w().held_any(), M_HELD_AFTER_ERR);")
         L.append("}")
@@ -346,6 +357,9 @@ def gen_panic(tier, kind, kinds=None, fixed_seed=None):
             continue
         if sh.n() == 0 and kind != "user":
             continue
+        if sh.n() >= 5 and kind != "user":
+            continue  # fault positions x pre-states explode for the large-arity shapes; they are covered fault-free
+
         for (api, mode, blocking, style) in apis_for(sh):
             ks = ["owned"] + (["lent"] if style == "scoped" else [])
             for keystyle in ks:
@@ -1359,6 +1373,14 @@ def drop_entries(tier):
                                       "{ let t = c.get_mut(); t.0.val = v0; t.1.val = v1; t.2.val = v2; }",
                                       "{ let g = c.lock(key()); vcheck!(g.0.val == v0 && g.1.val == v1 && g.2.val == v2, M_DATA); }",
                                       "vcheck!(none_dropped(), M_DROP_COUNT);"], 3)
+    for kind, ctor_new in (("boxed", "BoxedLockCollection::new"), ("owned", "OwnedLockCollection::new"), ("retry", "RetryingLockCollection::new")):
+        add("drop_%s_during_unwind" % kind, [
+            "let r = catch_unwind(AssertUnwindSafe(|| {", "\tlet c = %s(%s);" % (ctor_new, tuple3),
+            "\t{ let mut g = c.lock(key()); g.0.val = v0; }", "\teng::inject_panic();", "\tdrop(c);", "}));", "drop(r);"], 3)
+        add("drop_%s_nested_during_unwind" % kind, [
+            "let r = catch_unwind(AssertUnwindSafe(|| {",
+            "\tlet c = %s((BoxedLockCollection::new((md(0, 10), md(1, 11))), md(2, 12)));" % ctor_new,
+            "\tlet res = c.scoped_lock(key(), |_d| { eng::inject_panic(); });", "\tdrop(c);", "}));", "drop(r);"], 3)
     # checked constructors rejecting their input: referenced locks stay alive, owned members are dropped once
     for kind, c in (("boxed", "BoxedLockCollection::try_new"), ("retry", "RetryingLockCollection::try_new")):
         add("drop_%s_reject" % kind, ["let m = md(0, 10);", "let r = %s((&m, md(1, 11), &m));" % c,
